@@ -172,7 +172,7 @@ def scn_timeouts(ctx):
 ASSUMPTIONS = ["timeouts are 0 or >= 128*eps; a delegate never completes, or completes >= 64*eps before its deadline, >= 64*eps after it, or exactly at it (race resolved by the schedule), or is cancelled by someone else well before",
                "never-early is asserted against the earliest possible creation instant (start of the submit call); exactly-then as cancel <= (return of submit) + T + 40*eps"]
 BOUNDS_TEXT = {"quick": "1 future (executor and f_timeout forms, P<=1); 2 futures from 2 submitter threads with symbolic instants (P=0)",
-               "thorough": "1 future P<=2; 2 futures P<=1; 3 futures P=0; adversarial clock for never-early"}
+               "thorough": "1 future P<=2; 2 futures P<=1; 3 futures P=0; adversarial clock (each read advances by an arbitrary step in (0, 1000 s]) for never-early"}
 MUST_REACH = {"*": ["not-done-at-deadline", "completed-before-deadline", "completed-at-deadline"]}
 BUDGET = {"quick": 150.0, "thorough": 600.0}
 
